@@ -801,6 +801,36 @@ func (s *Slicer) specialisedReturns(call *ssa.Call, cal *ssa.Function) []*ssa.Re
 		p := cal.Params[i+off]
 		var match []Edge
 		n := 0
+		// the name is first looked up in a package-level table of functions (`if f, ok := stamps[name]; ok {
+		// return f(…) }`): a constant that is one of its keys takes that arm
+		var tblHit []Edge
+		allInstrs(cal, func(in ssa.Instruction) {
+			lk, isLk := in.(*ssa.Lookup)
+			if !isLk || !lk.CommaOk || lk.Index != ssa.Value(p) {
+				return
+			}
+			entries, _, _, isTbl := funcTableOf(lk)
+			if !isTbl || entries[cs] == nil {
+				return
+			}
+			for _, ref := range *lk.Referrers() {
+				if e, isE := ref.(*ssa.Extract); isE && e.Index == 1 {
+					t, _ := boolEdges(e)
+					tblHit = append(tblHit, t...)
+				}
+			}
+		})
+		if len(tblHit) > 0 {
+			var out []*ssa.Return
+			for _, r := range all {
+				if guardedByEdges(cal, r, tblHit) {
+					out = append(out, r)
+				}
+			}
+			if len(out) > 0 {
+				return out
+			}
+		}
 		allInstrs(cal, func(in ssa.Instruction) {
 			b, ok := in.(*ssa.BinOp)
 			if !ok || b.Op != token.EQL || b.X != ssa.Value(p) {
